@@ -68,9 +68,26 @@ func c07Universes(name string, lvl int, dirty func(string) bool) [][]string {
 	for i := range all {
 		all[i] = i
 	}
-	rank, off, _ := m.Rank(all, 1)
+	rank, off, wit := m.Rank(all, 3)
 	if off > 0 {
-		return nil
+		// Compare is not a total preorder on the sample: sort the offending triple (plus three
+		// spread members) in every order - the inconsistency then shows in C07's own terms
+		if len(wit) == 0 {
+			return nil
+		}
+		w := []string{strs[wit[0].A], strs[wit[0].B], strs[wit[0].C]}
+		for _, k := range []int{0, len(strs) / 2, len(strs) - 1} {
+			dup := false
+			for _, x := range w {
+				if x == strs[k] {
+					dup = true
+				}
+			}
+			if !dup {
+				w = append(w, strs[k])
+			}
+		}
+		return [][]string{w}
 	}
 	cls, nc := order.Classes(rank)
 	byClass := make([][]int, nc)
@@ -368,7 +385,7 @@ func c07Unit(name string, tier string) core.Unit {
 		}
 		c := &c07Checker{r: r, name: name, e: eco.ByName(name), srv: srv, parse: map[string]eco.Ver{}, seqByMultiset: map[string]string{}, firstList: map[string][]string{}}
 		ws := c07Universes(name, lvl, dirty)
-		if len(ws) < 2 {
+		if len(ws) < 1 {
 			r.Internalf("C07 %s: could not derive universes (got %d)", name, len(ws))
 			return
 		}
